@@ -10,7 +10,12 @@ Definition glue_C06 (k : string) (a o : list value) : option verdict :=
   if is k "tss.hist" then
     let ac := run_hist a o in
     Some (relational (a_agree06 ac && negb (a_bad ac)) (a_oracle06 ac))
-  else if is k "tss.flood" || is k "tss.lockdiscipline" then Some (relational true true)   (* C07's case kinds *)
+  else if is k "tss.flood" then
+    match run_flood_c06 o with
+    | Some b => Some (relational b b)
+    | None => Some (relational false true)
+    end
+  else if is k "tss.lockdiscipline" then Some (relational true true)   (* C07's case kind *)
   else None.
 
 Definition run_case (k : string) (a o : list value) : verdict := first_some [glue_C06] k a o.
